@@ -86,7 +86,7 @@ def source_pins(P, U):
             continue
         if hashes[k] != SOURCE_PINS.get(k):
             problems.append("%s changed (hash %s, pinned %s)" % (k, hashes[k], SOURCE_PINS.get(k)))
-    known = {"__init__", "start", "end", "close", "feed", "_feedmatch", "_start", "_groomstring", "regex", "data"}
+    known = {"__init__", "start", "end", "close", "feed", "_feedmatch", "_start", "_groomstring", "regex"}
     for n, v in P.TreeBuilder.__dict__.items():
         if (callable(v) or isinstance(v, (property, classmethod, staticmethod))) and n not in known:
             problems.append("TreeBuilder.%s: method not modelled" % n)
@@ -117,8 +117,10 @@ def repo_variant():
         # a partial set of overrides is neither of the two modelled builders: model the repaired one, deep setting
         known = False
     checked = bool(over)
+    # an override of data() (or any other method the model knows nothing about) is reported by source_pins: `source_is_pinned = false`
+    # breaks the obligation, and the run goes on so that the property predicate can look for a failing input
     if "data" in d:
-        raise ValueError("ofxtools.Parser.TreeBuilder overrides data(): not modelled")
+        known = False
     import ofxtools.utils as U
     importlib.reload(U)
     hashes, problems = source_pins(P, U)
